@@ -108,8 +108,18 @@ def fam_argv(seed, big):
     for d in (SP, os.path.join(SP, "cwd dir"), "/"):
         out.append({"id": "a-cwd%d" % i, "class": "cwd", "argv": vargv(), "cwd": hx(d)})
         i += 1
-    # identity: all combinations (the sandbox runs as root; the monitors also say what a non-root run must see)
-    for (u, g, pg) in itertools.product([None, 12345], [None, 23456], [False, True]):
+    # identity: all combinations (the sandbox runs as root; the monitors also say what a non-root run must see).
+    # The unprivileged child must be able to reach the reporting program and its report directory: when this tree
+    # lives under a directory other users cannot traverse (e.g. a snapshot under /root) only the root cases run.
+    def reachable(path):
+        p = os.path.abspath(path)
+        while p != "/":
+            if not os.stat(p).st_mode & 0o001:
+                return False
+            p = os.path.dirname(p)
+        return True
+    ids_ok = os.geteuid() == 0 and reachable(VCHILD) and reachable(SP)
+    for (u, g, pg) in itertools.product([None, 12345] if ids_ok else [None], [None, 23456] if ids_ok else [None], [False, True]):
         sc = {"id": "a-id%d" % i, "class": "identity", "argv": vargv(), "setpgid": pg}
         if u is not None:
             sc["setuid"] = u
